@@ -466,16 +466,21 @@ func (l *ledGen) recv() {
 	for k, v := range l.tip().utxo {
 		u[k] = v
 	}
-	// pending chain: outputs of pool txs are spendable by further pending txs
+	// pending chain: outputs of pool txs are spendable by further pending txs.
+	// `live` = the pool txs that are still valid on the node's tip (the others were double-spent or
+	// orphaned on this branch: a node validates what it relays, so they are not delivered again)
+	var live []*gTx
 	for _, p := range l.pool {
-		applyTx(u, p, l.tip().height+1)
+		if applyTx(u, p, l.tip().height+1) {
+			live = append(live, p)
+		}
 	}
 	switch k := l.r.Intn(10); {
-	case k == 0 && len(l.pool) > 0: // duplicate delivery
-		t := l.pool[l.r.Intn(len(l.pool))]
+	case k == 0 && len(live) > 0: // duplicate delivery
+		t := live[l.r.Intn(len(live))]
 		l.op("recvtx-dup", "recvtx %s", t.name)
-	case k == 1 && len(l.pool) > 0: // conflicting pending tx (same input)
-		t := l.pool[l.r.Intn(len(l.pool))]
+	case k == 1 && len(live) > 0: // conflicting pending tx (same input)
+		t := live[l.r.Intn(len(live))]
 		c := t.ins[l.r.Intn(len(t.ins))]
 		ds := l.makeTx([]gCoin{c}, "")
 		l.define(ds)
